@@ -2,6 +2,8 @@ package exec
 
 import (
 	"fmt"
+	"io"
+	"os"
 	"math/big"
 	"sort"
 	"strings"
@@ -114,6 +116,15 @@ type Config struct {
 	// Summaries: replace a function by a native summary.
 	Summaries map[string]func(m *Machine, args []Value) Value
 	KeepPCText bool
+	// ConcreteWitness, when set, makes vInt/vBool return these values (plain
+	// interpretation; used to validate the interpreter itself).
+	ConcreteWitness []string
+	// Guide, when set, is a witness under which every symbolic branch is
+	// decided by evaluation (one path, no forking); for debugging.
+	Guide []string
+	TraceIf io.Writer
+	// Args are the concrete int64 arguments passed to the harness entry.
+	Args []int64
 }
 
 type Machine struct {
@@ -122,6 +133,7 @@ type Machine struct {
 	ctx     *sym.Ctx
 	em      *sym.Emitter
 	solver  *smt.Solver
+	oneshot *smt.Solver // used non-incrementally (reset + full script) for proof obligations
 	pc      []*sym.Bool
 	prefix  []Dec
 	depth   int
@@ -136,6 +148,8 @@ type Machine struct {
 	curFn   []*ssa.Function
 	mergeGuard *sym.Bool // non-nil while in merge mode
 	pcUnsat bool
+	guide   *sym.Model
+	pcKeys  map[string]bool
 	nRound  int
 }
 
@@ -199,6 +213,15 @@ func (m *Machine) addPC(b *sym.Bool) {
 		return
 	}
 	m.pc = append(m.pc, b)
+	if m.pcKeys == nil {
+		m.pcKeys = map[string]bool{}
+	}
+	m.pcKeys[b.Key()] = true
+	if b.Kind == sym.BAnd {
+		for _, a := range b.Args {
+			m.pcKeys[a.Key()] = true
+		}
+	}
 	txt := m.em.Bool(b)
 	for _, d := range m.em.TakeDecls() {
 		m.solver.Send(d)
@@ -246,6 +269,22 @@ func (m *Machine) Branch(cond *sym.Bool) bool {
 		m.unsupported("fork inside merge-mode function")
 	}
 	m.drainSide()
+	if m.guide != nil {
+		if v, ok := m.guide.EvalBool(cond); ok {
+			if v {
+				m.addPC(cond)
+			} else {
+				m.addPC(m.ctx.Not(cond))
+			}
+			return v
+		}
+	}
+	if m.pcKeys[cond.Key()] {
+		return true
+	}
+	if m.pcKeys[m.ctx.Not(cond).Key()] {
+		return false
+	}
 	if m.depth < len(m.prefix) {
 		d := m.prefix[m.depth]
 		if d.C {
@@ -419,26 +458,56 @@ func (m *Machine) Assert(id string, cond *sym.Bool) {
 	for _, d := range m.em.TakeDecls() {
 		m.solver.Send(d)
 	}
-	m.solver.Push()
-	m.solver.Assert(txt)
 	t0 := time.Now()
-	r := m.solver.Check()
+	r, vals := m.solveOneshot(txt, id)
 	m.res.SolverTime += time.Since(t0)
 	m.res.Queries++
 	ob.Result = r.String()
 	if r == smt.Sat {
-		vals, err := m.solver.GetValues(m.nondetExprs())
-		if err == nil {
+		if vals != nil {
 			ob.WitnessV = vals
 		} else {
 			ob.Result = "unknown"
-			ob.Excused = "model unreadable: " + err.Error()
+			ob.Excused = "model unreadable"
 		}
 	}
-	m.solver.Pop()
 	m.res.Obligations = append(m.res.Obligations, ob)
 	// continue the path assuming the assertion holds
 	m.addPC(cond)
+}
+
+// solveOneshot decides PC ∧ extra in the non-incremental solver (fresh
+// context, full script), which lets z3 use its preprocessing tactics.
+func (m *Machine) solveOneshot(extra, id string) (smt.Result, []string) {
+	s := m.oneshot
+	s.Reset()
+	var sb strings.Builder
+	for _, d := range m.em.All {
+		sb.WriteString(d)
+		sb.WriteByte('\n')
+	}
+	for _, p := range m.pc {
+		sb.WriteString("(assert " + m.em.Bool(p) + ")\n")
+	}
+	sb.WriteString("(assert " + extra + ")")
+	if dir := os.Getenv("GOSYMX_DUMPUNKNOWN"); dir != "" && os.Getenv("GOSYMX_DUMPALL") != "" {
+		os.WriteFile(fmt.Sprintf("%s/ob_%s_%d_%d.smt2", dir, id, os.Getpid(), len(m.trace)*100000+m.steps), []byte(sb.String()+"\n(check-sat)\n"), 0o644)
+	}
+	s.Send(sb.String())
+	r := s.Check()
+	if r == smt.Unknown {
+		if dir := os.Getenv("GOSYMX_DUMPUNKNOWN"); dir != "" {
+			os.WriteFile(fmt.Sprintf("%s/unknown_%s_%d_%d.smt2", dir, id, os.Getpid(), len(m.trace)*100000+m.steps), []byte(sb.String()+"\n(check-sat)\n"), 0o644)
+		}
+	}
+	if r == smt.Sat {
+		vals, err := s.GetValues(m.nondetExprs())
+		if err != nil {
+			return r, nil
+		}
+		return r, vals
+	}
+	return r, nil
 }
 
 // ---------------------------------------------------------------------------
@@ -447,11 +516,14 @@ func (m *Machine) Assert(id string, cond *sym.Bool) {
 
 // RunPath executes entry following prefix and returns the result. The solver
 // is reset first.
-func RunPath(w *World, cfg *Config, solver *smt.Solver, entry *ssa.Function, prefix []Dec) (res *PathResult) {
-	m := &Machine{W: w, cfg: cfg, ctx: sym.NewCtx(), em: sym.NewEmitter(), solver: solver,
+func RunPath(w *World, cfg *Config, solver, oneshot *smt.Solver, entry *ssa.Function, prefix []Dec) (res *PathResult) {
+	m := &Machine{W: w, cfg: cfg, ctx: sym.NewCtx(), em: sym.NewEmitter(), solver: solver, oneshot: oneshot,
 		prefix: prefix, globals: map[*ssa.Global]*Cell{}}
 	res = &PathResult{Prefix: prefix, Funcs: map[string]int{}}
 	m.res = res
+	if cfg.Guide != nil {
+		m.guide = sym.NewModel()
+	}
 	solver.Reset()
 	q0 := solver.Queries
 	defer func() {
@@ -484,7 +556,11 @@ func RunPath(w *World, cfg *Config, solver *smt.Solver, entry *ssa.Function, pre
 	}()
 	m.initGlobals()
 	m.initDone = true
-	m.call(entry, nil)
+	var args []Value
+	for _, a := range cfg.Args {
+		args = append(args, a)
+	}
+	m.call(entry, args)
 	return res
 }
 
@@ -511,6 +587,16 @@ func (m *Machine) finishSample() {
 			exprs = append(exprs, m.em.Lin(t))
 		case *sym.Bool:
 			exprs = append(exprs, m.em.Bool(t))
+		case int64:
+			if t < 0 {
+				o.Val = fmt.Sprintf("(- %d)", -t)
+			} else {
+				o.Val = fmt.Sprint(t)
+			}
+			exprs = append(exprs, "")
+		case bool:
+			o.Val = fmt.Sprint(t)
+			exprs = append(exprs, "")
 		default:
 			exprs = append(exprs, "")
 		}
